@@ -24,6 +24,10 @@ def mk_compare(pid):
             return go == m, go == s
         if pid == "C04" and (case.startswith("VALID ") or case.startswith("FINITE ")):
             return replay_premise(case, go, m, s)
+        if case.startswith("SESS "):
+            # the subscriber a Server hands to its provider is a Session: its own Send / Flush error starts there (which
+            # writer method flushes, what a failed write leaves behind for the next Send)
+            return go == m, s == "ok"
         if case.startswith("E2E "):
             # resumption through the library's own server and client: the ID presented is the request's Last-Event-ID as
             # Upgrade / Server.getSubscription hand it to the provider (with and without OnSession topics)
@@ -41,7 +45,7 @@ def mk_compare(pid):
 
 
 def hist(case, go):
-    if case[0] in "VF" or case.startswith(("SPUB ", "SPUBH ", "E2E ")):
+    if case[0] in "VF" or case.startswith(("SPUB ", "SPUBH ", "E2E ", "SESS ")):
         return ["op:" + case.split(" ")[0]]
     parts = go.split(" ## ")
     if len(parts) != 3:
@@ -102,6 +106,8 @@ def nontrivial(case, go):
         return "R=S" in go
     if case.startswith("E2E "):
         return "resumed=0" not in go
+    if case.startswith("SESS "):
+        return "W" in go or "F" in go
     return ",pa" in go and ",sa" in go or go.startswith("sa")
 
 
@@ -133,6 +139,8 @@ def register(PROPS):
                          {"id": "C09", "quick": 12000, "thorough": 300000, "thorough_seeds": 8},
                          {"id": "C08", "quick": 8000, "thorough": 200000, "thorough_seeds": 8},
                          {"id": "C05", "quick": 150, "thorough": 4000, "thorough_seeds": 4}]} if pid == "C04" else {}),
+            **({"gens": [{"id": pid, "quick": 2500, "thorough": 60000, "thorough_seeds": 12, "race": True, "gomaxprocs": [1, 2, 16]},
+                         {"id": "C16S", "quick": 4000, "thorough": 100000, "thorough_seeds": 4}]} if pid in ("C06", "C17") else {}),
             "facts": {"hooks": ["Joe.Publish:3", "Joe.Shutdown:5", "Joe.Subscribe:7", "Joe.closeSubscribers:1", "Joe.init:6",
                                 "Joe.removeSubscriber:1", "Joe.start:11"]},
         }
